@@ -52,6 +52,6 @@ func allRules() []*Rule {
 		ruleR38(),
 		ruleR21(),
 		with(ruleR22(), r22NoStaleSnapshot),
-		with(ruleR23(), r23ExclusionLookedAt),
+		with(ruleR23(), r23ExclusionLookedAt, r23ExclusionComputed),
 	}
 }
